@@ -273,13 +273,19 @@ func (c *conn) Close(err error) {
 	})
 }
 
+// dialTurn: a dial under way; err tells those who waited for it why it failed.
+type dialTurn struct {
+	done chan struct{}
+	err  error
+}
+
 type Transport struct {
 	OnConnect func(net.Conn) net.Conn
 	OnClose   func(net.Conn)
 	conns     map[string]*conn
 	lock      sync.RWMutex
 	// dials: the servers a connection is being made to (see getConn)
-	dials map[string]chan struct{}
+	dials map[string]*dialTurn
 }
 
 func (trans *Transport) getConn(ctx context.Context) (conn *conn, err error) {
@@ -293,7 +299,7 @@ func (trans *Transport) getConn(ctx context.Context) (conn *conn, err error) {
 	trans.lock.RUnlock()
 	// one dial per server at a time: a call that finds one under way waits for it (no longer
 	// than its own context lasts) and looks into the pool again, instead of dialling too
-	var turn chan struct{}
+	var turn *dialTurn
 	for turn == nil {
 		trans.lock.Lock()
 		if conn = trans.conns[key]; conn != nil {
@@ -303,27 +309,46 @@ func (trans *Transport) getConn(ctx context.Context) (conn *conn, err error) {
 		wait, busy := trans.dials[key]
 		if !busy {
 			if trans.dials == nil {
-				trans.dials = make(map[string]chan struct{})
+				trans.dials = make(map[string]*dialTurn)
 			}
-			turn = make(chan struct{})
+			turn = &dialTurn{done: make(chan struct{})}
 			trans.dials[key] = turn
 		}
 		trans.lock.Unlock()
 		if busy {
 			select {
-			case <-wait:
+			case <-wait.done:
+				if wait.err != nil {
+					// the server could not be reached: the calls that waited for this dial
+					// fail with it, they do not each try again in turn
+					return nil, wait.err
+				}
 			case <-ctx.Done():
 				return nil, ctx.Err()
 			}
 		}
 	}
+	// the turn is given back whatever happens to the dial (OnConnect is the application's)
+	done := false
+	defer func() {
+		if !done {
+			trans.lock.Lock()
+			delete(trans.dials, key)
+			close(turn.done)
+			trans.lock.Unlock()
+		}
+	}()
 	// the dial (and OnConnect) runs without the pool lock: while it lasts, the calls of the
 	// connections that exist must not wait for it, least of all beyond their own time-out
 	fresh, err := newConn(ctx, trans.onConnect, trans.onClose)
 	trans.lock.Lock()
 	defer trans.lock.Unlock()
+	done = true
 	delete(trans.dials, key)
-	close(turn)
+	if err != nil && ctx.Err() == nil {
+		turn.err = err // (a dial that ended with its own caller concerns nobody else)
+	}
+	close(turn.done)
 	if err != nil {
 		return nil, err
 	}
